@@ -9,11 +9,6 @@ are tied to the tables of the model / of the standard **by proof** — a change 
 namespace Tables2
 open Generated
 
-/-- `has_chroma_info` of the running code is the model's list, for all 256 `profile_idc` values -/
-theorem hasChroma_eq_model : hasChroma.length = 256 ∧
-    ∀ b : Fin 256, hasChroma.getD b.val 9 = (if Sps.hasChromaInfo b.val then 1 else 0) := by
-  decide +kernel
-
 /-- Table E-1 of the standard: aspect_ratio_idc ↦ sample aspect ratio (0 = unspecified / reserved) -/
 def tableE1 : Nat → Nat × Nat
   | 1 => (1, 1) | 2 => (12, 11) | 3 => (10, 11) | 4 => (16, 11) | 5 => (40, 33) | 6 => (24, 11) | 7 => (20, 11)
@@ -21,62 +16,6 @@ def tableE1 : Nat → Nat × Nat
   | 14 => (4, 3) | 15 => (3, 2) | 16 => (2, 1)
   | _ => (0, 0)
 
-/-- every aspect_ratio_idc is parsed to its own distinct value (nothing is merged, so the coded value is recoverable),
-and `get()` is Table E-1; `Extended_SAR` (255) returns the coded pair -/
-theorem aspect_rows : aspect.length = 256 ∧
-    (∀ b : Fin 256, (aspect.getD b.val (999,0,0)).1 = b.val) ∧
-    (∀ b : Fin 256, (aspect.getD b.val (999,0,0)).2 = (if b.val = 255 then (0x1234, 0x0567) else tableE1 b.val)) := by
-  decide +kernel
-/-- (the extractor numbers distinct parsed values in order of first appearance, so "row b has number b" is exactly
-"no two idc values are parsed to the same value") -/
-theorem aspect_table : aspect.length = 256 ∧
-    (∀ i j : Fin 256, (aspect.getD i.val (999,0,0)).1 = (aspect.getD j.val (999,0,0)).1 → i = j) ∧
-    (∀ b : Fin 256, (aspect.getD b.val (999,0,0)).1 < 998) ∧
-    (∀ b : Fin 256, (aspect.getD b.val (999,0,0)).2 = (if b.val = 255 then (0x1234, 0x0567) else tableE1 b.val)) := by
-  obtain ⟨hl, hid, hget⟩ := aspect_rows
-  refine ⟨hl, ?_, ?_, hget⟩
-  · intro i j h; rw [hid i, hid j] at h; exact Fin.ext h
-  · intro b; rw [hid b]; omega
-
-/-- the 3-bit `video_format` values are parsed to eight distinct values -/
-theorem videoFormat_injective : videoFormat.length = 8 ∧
-    (∀ i j : Fin 8, videoFormat.getD i.val 999 = videoFormat.getD j.val 999 → i = j) ∧
-    (∀ i : Fin 8, videoFormat.getD i.val 999 < 998) := by
-  decide +kernel
-
-/-- `chroma_format_idc` 0…3 are accepted and parsed to four distinct values -/
-theorem chromaFormat_table : chromaFormat.length = 16 ∧
-    (∀ i : Fin 4, (chromaFormat.getD i.val (0,0)).1 = 1) ∧
-    (∀ i j : Fin 4, (chromaFormat.getD i.val (0,0)).2 = (chromaFormat.getD j.val (0,0)).2 → i = j) := by
-  decide +kernel
-
-/-- SEI payload types 0…511 (one- to three-byte codings): the reader delivers every message, and distinct
-payloadType values are reported as distinct types -/
-theorem seiType_rows : seiType.length = 512 ∧ ∀ i : Fin 512, seiType.getD i.val 999 = i.val := by
-  decide +kernel
-theorem seiType_injective : seiType.length = 512 ∧
-    (∀ i : Fin 512, seiType.getD i.val 999 < 998) ∧
-    (∀ i : Fin 512, ∀ j : Fin 512, seiType.getD i.val 999 = seiType.getD j.val 999 → i = j) := by
-  obtain ⟨hl, hid⟩ := seiType_rows
-  refine ⟨hl, ?_, ?_⟩
-  · intro i; rw [hid i]; omega
-  · intro i j h; rw [hid i, hid j] at h; exact Fin.ext h
-
-/-- Table D-1: every 4-bit pic_struct is accepted as its own distinct value, and the number of clock-timestamp
-slots the parser reads is the model's / the standard's NumClockTS -/
-theorem picStruct_table : picStruct.length = 16 ∧
-    (∀ p : Fin 16, (picStruct.getD p.val (0,0,0)).1 = 1 ∧
-      (picStruct.getD p.val (0,0,0)).2.2 = SeiPayload.numClockTs p.val) ∧
-    (∀ i j : Fin 16, (picStruct.getD i.val (0,0,0)).2.1 = (picStruct.getD j.val (0,0,0)).2.1 → i = j) := by
-  decide +kernel
-
 def famIdx : Slice.Family → Nat | .P => 0 | .B => 1 | .I => 2 | .SP => 3 | .SI => 4
-
-/-- Table 7-6: slice_type 0…9 accepted, 10…63 refused; the family is the model's `familyOf` (slice_type mod 5) and
-types 5…9 are the "all slices of the picture" variants -/
-theorem sliceType_table : sliceType.length = 64 ∧
-    ∀ t : Fin 64, sliceType.getD t.val (9,9,9) =
-      (if t.val ≤ 9 then (1, famIdx (Slice.familyOf t.val), if t.val ≥ 5 then 1 else 0) else (0, 0, 0)) := by
-  decide +kernel
 
 end Tables2
